@@ -254,3 +254,58 @@ def check_C19(ctx):
     for c in ok[:1] + ok[-2:]:
         ctx.sample({"id": c["id"], "i2id_func": c["i2id"]["func"], "id2idx_func": c["id2idx"]["func"], "locals_of_first_local_func": next((l for l in c["locals"] if l["ids"]), None)})
     ctx.assumptions += ["the Module state is read through the public API (iteration, get, public fields) and decoded binaries through wasmparser"]
+
+
+def check_C20(ctx):
+    ctx.rule = ("design: Features.tla (walrus's encoding choices for element/data segments, data count, block types, table immediates never need more than the input's encoding; "
+                "the per-encoding requirements are generated into FeatureFacts.tla by probing the validator); implementation: for fixtures, MVP-only modules, one family of modules per "
+                "post-MVP proposal and generated modules, input and output are validated under all-proposals minus every subset of size <= 2 (79 sets) and under the greedily minimal set; "
+                "TLC requires valid_F(in) => valid_F(out) for every F, with and without GC. A case is one (module, pass).")
+    q = ctx.quick()
+    wv(["feature-facts", "out=" + os.path.join(SPEC, "FeatureFacts.tla")])
+    model_check(ctx, "Features", cfg="MC_Features", workers=1, label="design-features")
+    n = 300 if q else 10000
+    trace = os.path.join(ctx.work, "features.ndjson")
+    wv(["trace-features", "inputs=fixtures,proposals:%d,gen:%d,gen:%d:mvp,gen:%d:stable" % (20 if q else 400, n, n, n // 2), "seed=%d" % ctx.seed, "out=" + trace])
+    r, cases = judge_trace(ctx, "Trace_Features", trace, slim=lambda c: {"id": c["id"], "source": c["source"], "needs": c.get("needs")})
+    import collections
+    dist = collections.Counter(",".join(c.get("needs", [])) or "mvp" for c in cases if c["outcome"] == "ok")
+    ctx.notes["needs_distribution"] = dict(dist.most_common(15))
+    ctx.notes["feature_sets_per_case"] = max(len(c["sets"]) for c in cases)
+    for c in cases[:1] + cases[-1:]:
+        ctx.sample({"id": c["id"], "needs": c.get("needs"), "sets_checked": len(c["sets"]), "in_elem_flags": c.get("in_elem_flags"), "out_elem_flags": c.get("out_elem_flags")})
+    ctx.assumptions += ["wasmparser's validator under a reduced WasmFeatures set defines 'validates under F'"]
+
+
+def check_C17(ctx):
+    ctx.rule = ("design: Arena.tla model-checked (plain and de-duplicating) with NeverReused, DeadStaysDead, DedupInv, AddReturnsLive, AddFreshIsNew, DeleteIsolated, DeleteOnlyThat, "
+                "IterIsLiveInOrder, GetIsStable; implementation: ALL histories of the bounded length over {add v, find v, delete k, get k, iter} enumerated by TLC (Enum_Arena.tla) plus random "
+                "long histories are replayed on each of the 11 real collections (types, exports, imports, memories, tables, globals, data, elements, funcs, customs, locals) through the public "
+                "API and every returned value is validated step by step against the actions of Arena.tla, with spec ids bound to real ids at allocation. A case is one (collection, history).")
+    q = ctx.quick()
+    L = 4 if q else 5
+    for cfgname, dd in (("MC_Arena_gen", "FALSE"), ("MC_Arena_dedup_gen", "TRUE")):
+        base = open(os.path.join(SPEC, "MC_Arena.cfg")).read().replace("MaxOps = 6", "MaxOps = %d" % (6 if q else 8)).replace("Dedup = FALSE", "Dedup = " + dd)
+        write_cfg(cfgname, base)
+        model_check(ctx, "Arena", cfg=cfgname, workers=4, label="design-" + cfgname)
+    hist = os.path.join(ctx.work, "histories.txt")
+    cfg = write_cfg("Enum_Arena_gen", open(os.path.join(SPEC, "Enum_Arena.cfg")).read().replace("MaxOps = 5", "MaxOps = %d" % L))
+    r = tlc("Enum_Arena", cfg=cfg, workers=8, cont=False, capture=("CASE", hist), name="enum-arena")
+    ctx.add_mc(r, "enum-histories(len=%d)" % L)
+    ctx.notes["histories_enumerated"] = sum(1 for _ in open(hist))
+    ctx.exhaustive = True
+    ctx.notes["exhaustive_over"] = "all histories of length %d over 2 payload values (per collection); random histories are samples" % L
+    trace = os.path.join(ctx.work, "arena.ndjson")
+    for f in os.listdir(ctx.work):
+        if f.startswith("arena.ndjson"):
+            os.remove(os.path.join(ctx.work, f))
+    shards = 4 if q else 12
+    out = wv(["trace-arena", "histories=" + hist, "random=%s" % ("40:60" if q else "3000:200"), "seed=%d" % ctx.seed, "out=" + trace, "shards=%d" % shards])
+    ctx.notes["harness"] = out.strip().splitlines()
+    allc = []
+    for kind in ("plain", "dedup", "nodelete"):
+        allc += judge_shards(ctx, "Trace_Arena", ["%s.%s.%d" % (trace, kind, k) for k in range(shards)], cfg="Trace_Arena_" + kind, label="arena-" + kind,
+                             slim=lambda c: {"id": c["id"], "coll": c["coll"], "events": c["events"]})
+    for c in allc[:1] + allc[len(allc) // 2: len(allc) // 2 + 1] + allc[-1:]:
+        ctx.sample({"id": c["id"], "events": c["events"][:8]})
+    ctx.notes["events_validated"] = sum(len(c["events"]) for c in allc)
